@@ -86,8 +86,10 @@ def apply_op(B, m, op, st):
         m.enable_sensitivities(True)
         st['sens'] = True
     elif op == 'Ss':
-        # sensitivities for a subset (the first published parameter)
-        m.enable_sensitivities(True, parameter_names=m.parameters()[:1])
+        # sensitivities for a subset, named as published at this moment:
+        # the first parameter and the compartment size (which RP renames)
+        m.enable_sensitivities(True, parameter_names=[
+            m.parameters()[0], 'V' if st.get('rp') else 'central.size'])
         st['sens'] = 'subset'
     elif op == 'S-':
         m.enable_sensitivities(False)
@@ -113,16 +115,19 @@ def reference(B, model_name, st):
                              num=3)
     if st.get('outputs'):
         r.set_outputs(st['outputs'])
+    # (the reference selects the sensitivities before it renames: the net
+    # configuration does not depend on that order)
+    if st.get('sens') == 'subset':
+        r.enable_sensitivities(True, parameter_names=[
+            r.parameters()[0], 'central.size'])
+    elif st.get('sens'):
+        r.enable_sensitivities(True)
     if st.get('rp'):
         r.set_parameter_names({'central.size': 'V'})
     if st.get('ro'):
         cur = r.outputs()
         if st['ro'] in cur:
             r.set_output_names({st['ro']: 'Y'})
-    if st.get('sens') == 'subset':
-        r.enable_sensitivities(True, parameter_names=r.parameters()[:1])
-    elif st.get('sens'):
-        r.enable_sensitivities(True)
     return r
 
 
